@@ -35,7 +35,7 @@ static HOOK: Once = Once::new();
 /// so that an abort caused by a panic inside a destructor can still be attributed to a site)
 pub static PANIC_TAP: std::sync::OnceLock<fn(&str)> = std::sync::OnceLock::new();
 
-const GENERIC_SITES: [&str; 1] = ["automerge/src/types.rs:464"];
+const GENERIC_SITES: [&str; 2] = ["automerge/src/types.rs:464", "library/core/src/slice/sort/shared/smallsort.rs:860"];
 
 pub fn install_panic_hook() {
     HOOK.call_once(|| {
